@@ -1,0 +1,8 @@
+// Copyright The gittuf Authors
+// SPDX-License-Identifier: Apache-2.0
+
+//go:build !verif
+
+package gitinterface
+
+func verifYield(string, string) {}
